@@ -188,6 +188,38 @@ pub struct MWorkflow {
     /// start events (`on:` entries, acts.event.manual)
     #[serde(default)]
     pub on: Vec<String>,
+    /// ids of steps / branches / acts that are written **without** an `id` in the YAML (the engine gives
+    /// them a generated one); they carry `name: ~<id>` instead, from which the observations map the
+    /// generated id back (`canon_nid`), so that oracles keep talking about the model's ids
+    #[serde(default, skip_serializing_if = "Vec::is_empty")]
+    pub anon: Vec<String>,
+}
+
+thread_local! {
+    static ANON: std::cell::RefCell<Vec<String>> = const { std::cell::RefCell::new(Vec::new()) };
+}
+
+fn is_anon(id: &str) -> bool {
+    ANON.with(|a| a.borrow().iter().any(|x| x == id))
+}
+
+fn put_id(m: &mut Map<String, Value>, id: &str) {
+    if id.is_empty() {
+        return;
+    }
+    if is_anon(id) {
+        put(m, "name", json!(format!("~{}", id)));
+    } else {
+        put(m, "id", json!(id));
+    }
+}
+
+/// the model's id of the node an observation is about: anonymous nodes are recognised by their name
+pub fn canon_nid(nid: &str, name: &str) -> String {
+    match name.strip_prefix('~') {
+        Some(id) if !id.is_empty() => id.to_string(),
+        _ => nid.to_string(),
+    }
 }
 
 fn put(m: &mut Map<String, Value>, k: &str, v: Value) {
@@ -219,9 +251,7 @@ fn render_timeouts(ts: &[MTimeout]) -> Value {
 
 pub fn render_act(a: &MAct) -> Value {
     let mut m = Map::new();
-    if !a.id.is_empty() {
-        put(&mut m, "id", json!(a.id));
-    }
+    put_id(&mut m, &a.id);
     let (uses, params): (String, Value) = match &a.kind {
         ActKind::Irq => ("acts.core.irq".into(), a.params.clone()),
         ActKind::Msg => ("acts.core.msg".into(), a.params.clone()),
@@ -281,7 +311,7 @@ pub fn render_act(a: &MAct) -> Value {
 
 pub fn render_branch(b: &MBranch) -> Value {
     let mut m = Map::new();
-    put(&mut m, "id", json!(b.id));
+    put_id(&mut m, &b.id);
     match &b.kind {
         BranchKind::If(c) => put(&mut m, "if", json!(c.js())),
         BranchKind::Else => put(&mut m, "else", json!(true)),
@@ -295,7 +325,7 @@ pub fn render_branch(b: &MBranch) -> Value {
 
 pub fn render_step(s: &MStep) -> Value {
     let mut m = Map::new();
-    put(&mut m, "id", json!(s.id));
+    put_id(&mut m, &s.id);
     if !s.tag.is_empty() {
         put(&mut m, "tag", json!(s.tag));
     }
@@ -334,6 +364,13 @@ pub fn render_step(s: &MStep) -> Value {
 }
 
 pub fn render_workflow(w: &MWorkflow) -> Value {
+    ANON.with(|a| *a.borrow_mut() = w.anon.clone());
+    let v = render_workflow_inner(w);
+    ANON.with(|a| a.borrow_mut().clear());
+    v
+}
+
+fn render_workflow_inner(w: &MWorkflow) -> Value {
     let mut m = Map::new();
     put(&mut m, "id", json!(w.id));
     if !w.name.is_empty() {
@@ -448,6 +485,39 @@ impl MWorkflow {
         self.visit_acts(&mut |_| n += 1);
         n
     }
+}
+
+/// choose nodes to be written without an id: acts directly in a step's act list, branches that no
+/// `needs` names, and (unless `keep_step_ids`: the client goes `back` to steps by id) steps that no `next` names
+pub fn anonymise(w: &mut MWorkflow, rng: &mut vsim::rng::Rng, permille: u64, keep_step_ids: bool) {
+    let mut referenced: Vec<String> = vec![];
+    let mut cands: Vec<String> = vec![];
+    w.visit_steps(&mut |s| {
+        if let Some(n) = &s.next {
+            referenced.push(n.clone());
+        }
+        for b in &s.branches {
+            if let BranchKind::Needs(n) = &b.kind {
+                referenced.extend(n.iter().cloned());
+            }
+            cands.push(b.id.clone());
+        }
+        if !keep_step_ids {
+            cands.push(s.id.clone());
+        }
+        for a in &s.acts {
+            if !a.id.is_empty() {
+                cands.push(a.id.clone());
+            }
+        }
+    });
+    let mut anon = vec![];
+    for c in cands {
+        if !referenced.contains(&c) && rng.below(1000) < permille {
+            anon.push(c);
+        }
+    }
+    w.anon = anon;
 }
 
 /// structural validity the generator guarantees and the shrinker must preserve: a needs-branch
